@@ -86,9 +86,13 @@ class Spy:
         return False
 
 
+SUFFIXES = (".yaml", ".yml")  # every extension the real load() reads as YAML
+SUFFIX = [".yaml"]  # the one documents are currently written with
+
+
 def _load_doc(text):
     """run the real load() on a document; -> (exception or None, result)"""
-    fd, path = tempfile.mkstemp(suffix=".yaml", prefix="verif_c18_")
+    fd, path = tempfile.mkstemp(suffix=SUFFIX[0], prefix="verif_c18_")
     try:
         with os.fdopen(fd, "w") as f:
             f.write(text)
@@ -101,10 +105,23 @@ def _load_doc(text):
         os.unlink(path)
 
 
+CLASS_SUFFIX = {}
+
+
 def capture_loader_classes():
-    with Spy() as spy:
-        err, _ = _load_doc(BENIGN)
-    return spy.classes, err
+    """the loader classes the real load() instantiates, for every file extension it reads as YAML"""
+    classes, first_err = [], None
+    for sfx in SUFFIXES:
+        SUFFIX[0] = sfx
+        with Spy() as spy:
+            err, _ = _load_doc(BENIGN)
+        if err is not None and first_err is None:
+            first_err = err
+        for c in spy.classes:
+            CLASS_SUFFIX.setdefault(c, sfx)
+            classes.append(c)
+    SUFFIX[0] = SUFFIXES[0]
+    return classes, first_err
 
 
 # ---------------------------------------------------------------------------------------------
@@ -502,6 +519,7 @@ def run(tier, seed):
         engine_errors.append("the real load() instantiated no PyYAML loader (C-accelerated or foreign parser?)")
     per_class = {}
     for cls in dict.fromkeys(classes):
+        SUFFIX[0] = CLASS_SUFFIX.get(cls, SUFFIXES[0])  # witnesses are replayed through the extension that uses this loader
         ents, klass, found = analyse(cls, stats, samples)
         per_class[cls.__module__ + "." + cls.__qualname__] = {
             "bases": [b.__name__ for b in cls.__mro__[1:4]],
@@ -522,7 +540,7 @@ def run(tier, seed):
                 h = confirmed[0]
                 violations.append({
                     "harness": "dispatch", "label": desc, "status": "confirmed", "kind": "custom",
-                    "module": MOD, "property": PROPERTY, "params": {"loader": cls.__name__},
+                    "module": MOD, "property": PROPERTY, "params": {"loader": cls.__name__, "suffix": SUFFIX[0]},
                     "inputs": {"tag": h["tag"], "where": h["where"], "document": h["document"],
                                "canary_fired": h["canary_fired"], "module_imported": h["module_imported"],
                                "exception": h["exception"]},
@@ -533,6 +551,7 @@ def run(tier, seed):
                                    "property": PROPERTY, "module": MOD})
     funnel_docs = 0
     for cls in list(dict.fromkeys(classes)) or [config_mod.COBalDLoader]:  # positions are checked whatever was captured
+        SUFFIX[0] = CLASS_SUFFIX.get(cls, SUFFIXES[0])
         problems, funnel_docs = funnel_check(cls)
         confirmed = {}
         for pr in problems:
@@ -545,7 +564,7 @@ def run(tier, seed):
         for where, pr in confirmed.items():
             violations.append({"harness": "position", "label": "a python/* tag at every position is rejected",
                                "status": "confirmed", "kind": "custom", "module": MOD, "property": PROPERTY,
-                               "params": {"loader": cls.__name__},
+                               "params": {"loader": cls.__name__, "suffix": SUFFIX[0]},
                                "inputs": {"position": where, "document": pr["document"], "problem": pr["problem"],
                                           "tag": "tag:yaml.org,2002:python/object/apply:%s.fire" % CANARY}})
     for u in stats["unknown"]:
@@ -583,12 +602,14 @@ def run(tier, seed):
     }
     assumptions = ["PyYAML funnels every node at every depth through construct_object",
                    "SafeConstructor's own methods build only plain data",
-                   "installed entry points of group cobald.config.yaml_constructors are the registered plugins"]
+                   "installed entry points of group cobald.config.yaml_constructors are the registered plugins",
+                   "the loader classes are those the real load() instantiates for a .yaml and for a .yml file"]
     return core.finish(PROPERTY, tier, seed, "model_checking", coverage, assumptions, t0, violations,
                        engine_errors, [], PREDICATES)
 
 
 def replay(v):
+    SUFFIX[0] = (v.get("params") or {}).get("suffix", SUFFIXES[0])
     if v.get("harness") in ("funnel", "position"):
         err, _ = _load_doc(v["inputs"]["document"])
         print("REPRODUCED (document accepted)" if err is None else "not reproduced on this tree: %s" % type(err).__name__)
